@@ -58,6 +58,12 @@ theorem bad_step {cfg : Config} {s s' : St} (ha : InvA cfg.n s) (hb : InvB cfg s
     simp only [setCh]; rw [touch_bad_of_undelivered _ (undelivered_of_pend ha hc (by simp [hp]))]; exact h0
   | cDestruct j c hc hp hb' =>
     simp only [setCh]; rw [touch_bad_of_undelivered _ (undelivered_of_dlv ha hc (by simp [hp]))]; exact h0
+  | cSigStop j c hc hp hk hr =>
+    simp only [setCh, signalSt]; rw [touch_bad_of_undelivered _ (undelivered_of_dlv ha hc (by simp [hp]))]; exact h0
+  | cNoStop j c hc hp hk hr =>
+    simp only [setCh]; rw [touch_bad_of_undelivered _ (undelivered_of_dlv ha hc (by simp [hp]))]; exact h0
+  | cSignalR j c hc hp hk =>
+    simp only [setCh, signalSt]; rw [touch_bad_of_undelivered _ (undelivered_of_dlv ha hc (by simp [hp]))]; exact h0
   | cSignal j c hc hp =>
     simp only [setCh, signalSt]; rw [touch_bad_of_undelivered _ (undelivered_of_dlv ha hc (by simp [hp]))]; exact h0
   | nTake t k ck hn hcur hk h0' => exact h0
@@ -91,6 +97,15 @@ theorem bad_step {cfg : Config} {s s' : St} (ha : InvA cfg.n s) (hb : InvB cfg s
   | sDestruct hp =>
     show (touch s).bad = 0
     rw [touch_bad_of_undelivered _ (undelivered_of_sd ha (by simp [hp]))]; exact h0
+  | sSigStop hp hk hr =>
+    show (touch s).bad = 0
+    rw [touch_bad_of_undelivered _ (undelivered_of_sd ha (by simp [hp]))]; exact h0
+  | sNoStop hp hk hr =>
+    show (touch s).bad = 0
+    rw [touch_bad_of_undelivered _ (undelivered_of_sd ha (by simp [hp]))]; exact h0
+  | sSignalR hp hk =>
+    show (touch s).bad = 0
+    rw [touch_bad_of_undelivered _ (undelivered_of_sd ha (by simp [hp]))]; exact h0
   | sSignal hp =>
     show (touch s).bad = 0
     rw [touch_bad_of_undelivered _ (undelivered_of_sd ha (by simp [hp]))]; exact h0
@@ -101,7 +116,7 @@ theorem bad_step {cfg : Config} {s s' : St} (ha : InvA cfg.n s) (hb : InvB cfg s
 
 /-- the stop callback is past its call of `stopSource_.request_stop()` -/
 def SPh.pastOwn : SPh → Bool
-  | .notifying | .preDec | .dlv1 | .dlv2 => true
+  | .notifying | .preDec | .dlv1 | .dlv2 | .dlv3 => true
   | _ => false
 
 /-- the stop callback has returned (or was never invoked because it was no longer registered) -/
@@ -120,6 +135,8 @@ def SPh.after : SPh → Bool
 @[simp, grind =] theorem pastOwn_cbRet : SPh.pastOwn .cbRet = false := rfl
 @[simp, grind =] theorem pastOwn_ret : SPh.pastOwn .ret = false := rfl
 @[simp, grind =] theorem pastOwn_fin : SPh.pastOwn .fin = false := rfl
+@[simp, grind =] theorem pastOwn_dlv3 : SPh.pastOwn .dlv3 = true := rfl
+@[simp, grind =] theorem after_dlv3 : SPh.after .dlv3 = false := rfl
 @[simp, grind =] theorem after_idle : SPh.after .idle = false := rfl
 @[simp, grind =] theorem after_begun : SPh.after .begun = false := rfl
 @[simp, grind =] theorem after_cbEnter : SPh.after .cbEnter = false := rfl
@@ -141,6 +158,7 @@ def SPh.after : SPh → Bool
 @[simp, grind =] theorem pastStop_dlv1 : CPh.pastStop .dlv1 = true := rfl
 @[simp, grind =] theorem pastStop_dlv2 : CPh.pastStop .dlv2 = true := rfl
 @[simp, grind =] theorem pastStop_fin : CPh.pastStop .fin = true := rfl
+@[simp, grind =] theorem pastStop_dlv3 : CPh.pastStop .dlv3 = true := rfl
 
 /-- the child has done its exchange on `doneOrError_` (or did not need one) -/
 def CPh.pastX : CPh → Bool
@@ -156,6 +174,7 @@ def CPh.pastX : CPh → Bool
 @[simp, grind =] theorem pastX_dlv1 : CPh.pastX .dlv1 = true := rfl
 @[simp, grind =] theorem pastX_dlv2 : CPh.pastX .dlv2 = true := rfl
 @[simp, grind =] theorem pastX_fin : CPh.pastX .fin = true := rfl
+@[simp, grind =] theorem pastX_dlv3 : CPh.pastX .dlv3 = true := rfl
 
 structure InvD (cfg : Config) (s : St) : Prop where
   /-- the winner of the `doneOrError_` exchange failed, and once it is past its
@@ -279,6 +298,18 @@ theorem invD_step {cfg : Config} {s s' : St} (ha : InvA cfg.n s) (hb : InvB cfg 
     have hm := mem_of_get hc
     have hj := (get_of_some hc).1
     invd_fin
+  | cSigStop j c hc hp hk hr =>
+    have hm := mem_of_get hc
+    have hj := (get_of_some hc).1
+    invd_fin
+  | cNoStop j c hc hp hk hr =>
+    have hm := mem_of_get hc
+    have hj := (get_of_some hc).1
+    invd_fin
+  | cSignalR j c hc hp hk =>
+    have hm := mem_of_get hc
+    have hj := (get_of_some hc).1
+    invd_fin
   | cSignal j c hc hp =>
     have hm := mem_of_get hc
     have hj := (get_of_some hc).1
@@ -309,6 +340,9 @@ theorem invD_step {cfg : Config} {s s' : St} (ha : InvA cfg.n s) (hb : InvB cfg 
   | sDecLast hp hr => invd_fin
   | sDec hp hr => invd_fin
   | sDestruct hp => invd_fin
+  | sSigStop hp hk hr => invd_fin
+  | sNoStop hp hk hr => invd_fin
+  | sSignalR hp hk => invd_fin
   | sSignal hp => invd_fin
   | sCbRet hp => invd_fin
   | sRet hp => invd_fin
